@@ -1161,7 +1161,35 @@ def fam_floatmisc(vt, cfg):
     return I
 
 
+def fam_sdenom(vt, cfg):
+    """scalar Denominator<T> (C14): n in 'a', divisor in 'b', both scalars"""
+    if not (vt.is_int and vt.n == 1):
+        return []
+    I = []
+    q = "sdiv" if vt.signed else "udiv"
+    r = "srem" if vt.signed else "urem"
+    D = "avel::Denominator<S>"
+    SS = [("S", "a"), ("S", "b")]
+    eq = lambda c: T.op(q, c.vt.eb, c.args["a"], c.args["b"])
+    er = lambda c: T.op(r, c.vt.eb, c.args["a"], c.args["b"])
+    for nm, body, e, pre in (("sd_quot", "div(a, %s{b}).quot" % D, eq, ""), ("sd_rem", "div(a, %s{b}).rem" % D, er, ""),
+                             ("sd_quo_op", "a / %s{b}" % D, eq, ""), ("sd_rem_op", "a %% %s{b}" % D, er, ""),
+                             ("sd_quo_assign", "a", eq, "a /= %s{b};" % D), ("sd_rem_assign", "a", er, "a %%= %s{b};" % D)):
+        i = Inst(nm, SS, "S", body, e, pre=pre)
+        i.env_ok = denom_env_ok(vt, "b")
+        i.clause = "value"
+        i.budget_s = 20 if vt.eb == 8 else (3 if TIER == "quick" else 10)
+        i.budget_nodes = 600000
+        i.wrapper_only = nm.endswith(("_op", "_assign"))
+        I.append(i)
+    i = Inst("sd_value", [("S", "b")], "S", "%s{b}.value()" % D, lambda c: c.args["b"])
+    i.clause = "value()"
+    I.append(i)
+    return I
+
+
 FAMILIES = {
+    "sdenom": fam_sdenom,
     "floatmisc": fam_floatmisc,
     "vdenom": fam_vdenom,
     "div": fam_div,
